@@ -18,7 +18,7 @@ func main() {
 		fmt.Fprintln(os.Stderr, "need -out")
 		os.Exit(2)
 	}
-	if err := vinstr.Instrument(vinstr.Options{RepoDir: *repo, OutDir: *out, StmtPkg: *stmt, Exports: true}); err != nil {
+	if err := vinstr.Instrument(vinstr.Options{RepoDir: *repo, OutDir: *out, StmtPkg: *stmt, StmtTypes: map[string][]string{"client": {"hSet", "hList", "hNode"}}, Exports: true}); err != nil {
 		fmt.Fprintln(os.Stderr, "vinstr:", err)
 		os.Exit(1)
 	}
